@@ -1187,6 +1187,12 @@ func (m *Memberlist) suspectNode(s *suspect) {
 
 	// If this is us we need to refute, otherwise re-broadcast
 	if state.Name == m.config.Name {
+		// If we are leaving we must not refute: bumping our incarnation
+		// here would make the dead message Leave() is about to submit look
+		// stale, and our departure would never be announced.
+		if m.hasLeft() {
+			return
+		}
 		m.refute(state, s.Incarnation)
 		m.logger.Printf("[WARN] memberlist: Refuting a suspect message (from: %s)", s.From)
 		return // Do not mark ourself suspect
